@@ -488,7 +488,12 @@ class FieldHeader:
 
     @property
     def disambiguated(self) -> str:
-        return self.raw + "_" if self.raw in utils.RESERVED_NAMES else self.raw
+        # `raw` may be a dotted path (e.g. `book.from`): every segment is an
+        # attribute access on a generated message.
+        return ".".join(
+            seg + "_" if seg in utils.RESERVED_NAMES else seg
+            for seg in self.raw.split(".")
+        )
 
 
 @dataclasses.dataclass(frozen=True)
